@@ -7,13 +7,21 @@ PROP = "C27"
 LEVEL = "other"
 QUICK = ["K0"]
 THOROUGH = ALL_CONFIGS
-ASSUMPTIONS = ["growth arithmetic (units per block, table sizes) is value-level and not decided"]
-LEVEL_NOTE = "partial: decides only that the mapped extent of each growth step is clamped to the remaining room below the list's limit and that the high-water mark advances by exactly the mapped extent"
+ASSUMPTIONS = ["callers grow the list in multiples of the grain (debug-asserted precondition of grow_list_by_blocks)",
+               "the limit handed to RawMemoryFreeList::new is base + size_in_pages(units, heads) pages (Map64::create_parent_freelist; checked)"]
+LEVEL_NOTE = ("partial: decides (a) that the mapped extent of each growth step is clamped to the remaining room below the list's limit and the high-water mark "
+              "advances by exactly the mapped extent, and (b) that the sibling size formulas agree algebraically (linear normal forms): capacity(mapped extent of a "
+              "table sized by size_in_pages(units, heads)) == units, with no truncating division or special-cased branch; not decided: i32 overflow, page rounding")
 EXPLANATION = (
     "Partial claim. In RawMemoryFreeList::raise_high_water the byte count passed to mmap is, on the path where "
     "high_water + extent > limit, re-derived as (limit - high_water) (accepted idioms: guarded reassignment or min(_, limit - high_water)); "
     "the start passed to mmap is high_water; high_water is then advanced by the same extent value; every caller reaches it through "
-    "grow_list_by_blocks. Operand order of the clamp is checked on the origin tree (limit - high_water, not high_water - limit)."
+    "grow_list_by_blocks. Operand order of the clamp is checked on the origin tree (limit - high_water, not high_water - limit). "
+    "Formula agreement: the result trees of size_in_pages, current_capacity (with units_in_first_block/units_per_block inlined) and the block count in "
+    "grow_freelist are normalised to linear polynomials over named atoms; the table holds units+heads+1 entries, the capacity of a mapped extent of E "
+    "entries is E-heads-1 (single definition, division-free, so a partial last block counts), both use the same LOG_BYTES_IN_UNIT, and the number of blocks "
+    "requested is ceil((required - capacity) / units_per_block). grow_list_by_blocks frees [old_max, new_max) in regions of min(grain, new_max - old_max) "
+    "with old_max read before current_units is overwritten."
 )
 RM = "util::raw_memory_freelist::RawMemoryFreeList::"
 
@@ -69,3 +77,139 @@ def run(ctx, F):
                   found="add_assign sites=%d stores=%d" % (len(adv2), len(adv)), where=where(f), key="C27.bounded-mmap|advance")
     check_callers(ctx, F, "C27.bounded-mmap", f.q, {RM + "grow_list_by_blocks": "the only growth path"})
     check_callers(ctx, F, "C27.bounded-mmap", RM + "mmap", {f.q: "growth step"})
+
+    # ---- C27.formula-agreement (linear normal forms; see rules/lin.py)
+    from . import lin
+    RULE = "C27.formula-agreement"
+    sp = F.fn(RM + "size_in_pages")
+    cap = F.fn(RM + "current_capacity")
+    shifts = {}
+
+    def atoms(t):
+        if t and t[0] == "field" and strip(t[1]) == ("arg", 1) and t[2] in ("heads", "current_units", "max_units", "grain", "pages_per_block"):
+            return t[2]
+        if t and t[0] == "bin" and t[1] == "Shr" and lin.const_val(strip(t[3])) is not None and show(strip(t[2])) == "<Address as Sub<util::address::Address>>::sub(arg1.high_water, arg1.base)":
+            shifts["shr"] = lin.const_val(strip(t[3]))
+            return "mapped_entries"
+        return None
+    # table size in bytes
+    tb = None
+    why = ""
+    rts = [strip(t) for _, t in sp.flow.return_trees()]
+    pg = [x for x in walk(rts[0]) if x and x[0] == "call" and isinstance(x[1], str) and last_seg(x[1]) == "bytes_to_pages_up"] if len(rts) == 1 else []
+    if len(pg) == 1:
+        try:
+            tb = lin.poly(F, sp, pg[0][3][0])
+        except lin.NonLinear as e:
+            why = e.why
+    ctx.judge(tb is not None and set(tb) == {"units", "heads", "1"} and tb["units"] == tb["heads"] == tb["1"] and tb["units"] in (2, 4, 8, 16), RULE,
+              "the table holds units + heads + 1 entries (one per unit, per head, plus the bottom sentinel)", expected="size_in_pages = pages_up((units + heads + 1) << LOG_BYTES_IN_UNIT)",
+              found=(lin.p_show(tb) if tb is not None else "not linear: " + why), where=where(sp), key=RULE + "|table-size")
+    cp = None
+    why = ""
+    rts = [strip(t) for _, t in cap.flow.return_trees()]
+    try:
+        if len(rts) != 1:
+            raise lin.NonLinear("%d return definitions" % len(rts))
+        cp = lin.poly(F, cap, rts[0], atoms=atoms, inline={RM + "units_in_first_block"})
+    except lin.NonLinear as e:
+        why = e.why
+    ctx.judge(cp is not None and cp == {"mapped_entries": 1, "heads": -1, "1": -1}, RULE, "capacity = mapped entries - heads - 1, counted from the mapped extent",
+              expected="one division-free definition: ((high_water - base) >> LOG_BYTES_IN_UNIT) - heads - 1 (a partial last block counts; an unmapped list has capacity -(heads+1))",
+              found=(lin.p_show(cp) if cp is not None else "not an exact linear function of the mapped extent: " + why), where=where(cap), key=RULE + "|capacity")
+    if cp is not None and tb is not None and set(tb) == {"units", "heads", "1"}:
+        k = shifts.get("shr")
+        okk = k is not None and all(v % (1 << k) == 0 for v in tb.values())
+        comp = None
+        if okk:
+            entries = {a: v >> k for a, v in tb.items()}
+            comp = lin.p_add({a: v for a, v in cp.items() if a != "mapped_entries"}, lin.p_scale(entries, cp.get("mapped_entries", 0)))
+        ctx.judge(okk and comp == {"units": 1}, RULE, "a fully mapped table of size_in_pages(units, heads) has capacity exactly `units`",
+                  expected="capacity o table-size == units (same LOG_BYTES_IN_UNIT on both sides)", found="shift=%s composed=%s" % (k, lin.p_show(comp) if comp is not None else None),
+                  where=where(cap), key=RULE + "|compose")
+    # units_in_first_block = units_per_block - heads - 1
+    ufb = F.fn(RM + "units_in_first_block")
+    try:
+        u = lin.poly(F, ufb, [strip(t) for _, t in ufb.flow.return_trees()][0], atoms=atoms)
+        up = [a for a in u if "units_per_block" in a]
+        oku = len(up) == 1 and u == {up[0]: 1, "heads": -1, "1": -1}
+        fu = lin.p_show(u)
+    except lin.NonLinear as e:
+        oku, fu = False, e.why
+    ctx.judge(oku, RULE, "first block loses heads + 1 entries to the head and sentinel slots", expected="units_per_block - heads - 1", found=fu, where=where(ufb), key=RULE + "|first-block")
+    # blocks requested by grow_freelist
+    gf = F.fn(RM + "grow_freelist")
+    gl = live_calls(gf, q=RM + "grow_list_by_blocks")
+    ctx.judge(len(gl) == 1, RULE, "grow_freelist grows through grow_list_by_blocks", expected="1 call", found=str(len(gl)), where=where(gf), key=RULE + "|grow-site")
+    for c in gl:
+        bt = strip(gf.flow.arg_tree(c, 1))
+        alts = list(bt[1]) if bt and bt[0] == "phi" else [bt]
+        divs = [a for a in alts if a and a[0] == "bin" and a[1] == "Div"]
+        zeros = [a for a in alts if lin.const_val(a) == 0]
+        okb = len(divs) == 1 and len(zeros) + len(divs) == len(alts)
+        fb = str([show(a)[:120] for a in alts])
+        if okb:
+            try:
+                num = lin.poly(F, gf, divs[0][2], atoms=atoms)
+                den = lin.poly(F, gf, divs[0][3], atoms=atoms)
+                capa = [a for a in num if "current_capacity" in a]
+                upb = [a for a in den]
+                okb = len(capa) == 1 and len(upb) == 1 and den == {upb[0]: 1} and "units_per_block" in upb[0] and \
+                    num == {"units": 1, "current_units": 1, capa[0]: -1, upb[0]: 1, "1": -1}
+                fb = "(%s) / (%s)" % (lin.p_show(num), lin.p_show(den))
+            except lin.NonLinear as e:
+                okb, fb = False, e.why
+        ctx.judge(okb, RULE, "blocks requested = ceil((required - capacity) / units_per_block)", expected="(units + current_units - capacity + units_per_block - 1) / units_per_block, or 0",
+                  found=fb, where=where(gf, c.line), key=RULE + "|blocks")
+        nm = gf.flow.arg_tree(c, 2)
+        try:
+            okn = lin.poly(F, gf, nm, atoms=atoms) == {"units": 1, "current_units": 1}
+        except lin.NonLinear:
+            okn = False
+        ctx.judge(okn, RULE, "the new maximum is current_units + units", expected="required_units", found=show(strip(nm))[:100], where=where(gf, c.line), key=RULE + "|new-max")
+    falses = [(b, t, g) for b, t, g in ret_table(gf) if const_arg(t) is False]
+    okf = len(falses) == 1 and any(p.val is True and show(p.tree) == "((arg2 Add arg1.current_units) Gt arg1.max_units)" for p in falses[0][2])
+    ctx.judge(okf, RULE, "growth is refused only beyond the configured maximum", expected="return false iff units + current_units > max_units",
+              found=str([[(show(p.tree)[:80], p.val) for p in g] for b, t, g in falses]), where=where(gf), key=RULE + "|refuse")
+    # grain of the freed regions
+    gb = F.fn(RM + "grow_list_by_blocks")
+    mins = [c for c in live_calls(gb) if c.name == "min"]
+    cu_store = [(bb, j) for (bb, j, pl, t) in stores(gb) if place_str(gb, pl).endswith(".current_units")]
+    old_def = None
+    for i, b in enumerate(gb.blocks):
+        if i not in gb.cfg.live:
+            continue
+        for j, st in enumerate(b["s"]):
+            if st[0] == "=" and len(st[1]) == 1 and gb.local_name(st[1][0]) and st[2][0] == "use" and st[2][1][0] in ("c", "m") and st[2][1][1] == [1, "*", ".current_units"]:
+                old_def = (i, j, st[1][0])
+    okg = len(mins) == 1 and len(cu_store) == 1 and old_def is not None
+    fg = "min sites=%d current_units stores=%d old value saved=%s" % (len(mins), len(cu_store), old_def is not None)
+    if okg:
+        c = mins[0]
+        a0 = show(strip(gb.flow.arg_tree(c, 0)))
+        try:
+            a1 = lin.poly(F, gb, gb.flow.arg_tree(c, 1), atoms=atoms)
+        except lin.NonLinear as e:
+            a1 = {"?": 1}
+        before = gb.cfg.dominates(old_def[0], cu_store[0][0]) and (old_def[0] != cu_store[0][0] or old_def[1] < cu_store[0][1])
+        # the subtrahend operand is the saved local, not a fresh read of the (already overwritten) field
+        sub = [x for x in walk(gb.flow.arg_tree(c, 1)) if x and x[0] == "bin" and x[1].startswith("Sub")]
+        okg = a0 == "arg1.grain" and a1 == {"new_max": 1, "current_units": -1} and before and gb.cfg.dominates(cu_store[0][0], c.bb)
+        fg = "min(%s, %s); old_max saved before the store: %s" % (a0, lin.p_show(a1), before)
+    ctx.judge(okg, RULE, "new units are freed in regions of min(grain, new_max - old_max)", expected="min(self.grain, new_max - old_max) with old_max = current_units before the update",
+              found=fg, where=where(gb), key=RULE + "|grain")
+    # the limit given by Map64 is base + size_in_pages(units, heads)
+    m64 = [f2 for q, f2 in F.fns.items() if q.endswith("Map64 as util::heap::layout::vm_map::VMMap>::create_parent_freelist")]
+    if m64:
+        g2 = m64[0]
+        news = live_calls(g2, q=RM + "new")
+        okm = len(news) == 1
+        fm = "%d RawMemoryFreeList::new calls" % len(news)
+        if okm:
+            c = news[0]
+            lim = show(strip(g2.flow.arg_tree(c, 1)))
+            ppb = show(strip(g2.flow.arg_tree(c, 2)))
+            okm = "size_in_pages" in lim and "default_block_size" in ppb
+            fm = "limit=%s pages_per_block=%s" % (lim[:140], ppb[:80])
+        ctx.judge(okm, RULE, "Map64 sizes the list's address range with size_in_pages and its blocks with default_block_size", expected="limit = base + pages_to_bytes(size_in_pages(units, heads))",
+                  found=fm, where=where(g2), key=RULE + "|map64")
